@@ -332,6 +332,20 @@ def r5_identifier_provenance(repo):
         obs.append(Ob("C05-R5", "%s@%s#%d" % (n, fn.name, [x[1] for x in sites if x[0] is fn].index(c)), _w(fn, c), ok, why))
     if len(sites) < 10:
         raise AnalysisError("declaration construction sites: %d" % len(sites), rule="C05-R5")
+    # type parameter names: the list of taken names must record exactly what caps() drew
+    f = _m(repo, "gen_type_params")
+    caps = [c for c in calls_in(f.node) if call_name(c) == "caps"]
+    okc = len(caps) == 1 and kwarg(caps[0], "blacklist") is not None
+    if okc:
+        bl = src(kwarg(caps[0], "blacklist"))
+        apps = [c for c in calls_in(f.node) if call_name(c) == "append" and src(c.func.value) == bl]
+        okc = len(apps) == 1 and isinstance(apps[0].args[0], ast.Name)
+        if okc:
+            d = cfg_of(f.node).defs_reaching(apps[0].args[0].id, apps[0])
+            okc = len(d) == 1 and d[0][1] is caps[0] and not flat_guards(apps[0], stop=[a for a in ancestors(apps[0]) if isinstance(a, ast.For)][0])
+    obs.append(Ob("C05-R5", "gen_type_params:taken-names-record-the-drawn-letter", _w(f), okc,
+                  "the name appended to the blacklist that caps() consults must be the raw name caps() returned (before any "
+                  "prefix such as F_ is added), unconditionally: otherwise two type parameters of one function can get the same name"))
     # parameters named by callers: the callers pass pool names or copies
     gi = repo.fn("src.generators.utils.gen_identifier")
     calls = [c for c in calls_in(gi.node) if "random.word" in src(c.func)]
@@ -533,6 +547,16 @@ def _v_reset_from_class_attr(tree):
     f.body[0].value = V.parse_expr("set(RandomUtils.INITIAL_WORDS)")
 
 
+def _v_taken_names_prefixed(tree):
+    f = V.find_def(tree, "Generator.gen_type_params")
+    lp = V.one([n for n in f.body if isinstance(n, ast.For)])
+    st = V.one([n for n in lp.body if isinstance(n, ast.Expr) and V.is_call_named(n.value, "append")
+                and "type_param_names" in ast.unparse(n)])
+    iff = V.one([n for n in lp.body if isinstance(n, ast.If) and ast.unparse(n.test) == "for_function"])
+    lp.body.remove(st)
+    lp.body.insert(lp.body.index(iff) + 1, st)
+
+
 def _t_rename(tree):
     f = V.find_def(tree, "Generator._get_assignable_vars")
     V.rename_local(f, "variables", "targets")
@@ -555,6 +579,7 @@ def variants():
         V.Variant("`given` deleted from scala_keywords", "src/resources/scala_keywords", _v_del_def, {"C05-R7"}),
         V.Variant("callee for Box<T> may be generated in the global namespace", g, _v_global_callee, {"C05-R8"}),
         V.Variant("reset_word_pool restores the unfiltered class-level pool", "src/utils.py", _v_reset_from_class_attr, {"C05-R6"}),
+        V.Variant("taken type-parameter names recorded with the F_ prefix", g, _v_taken_names_prefixed, {"C05-R5"}),
         V.Variant("twin: rename the candidate list", g, _t_rename, None, twin=True),
         V.Variant("twin: whole tree reformatted by ast.unparse", None, None, None, twin=True),
     ]
